@@ -66,46 +66,10 @@ def run(chk, repo, tier):
 
     from .extra_rules import vegaflux_rule
     vegaflux_rule(chk, repo, 'C14-h')
-    units = list(WAVE_CLASSES)
     # ---------------------------------------------------------------- C14-a
-    fac = {}
-    for a in units:
-        for b in units:
-            v, f = wave_factor(repo, a, b)
-            fac[(a, b)] = v
-            if v is None:
-                raise AnalysisError(f'{f.key}({b!r}) does not fold to a constant')
-    for a in units:
-        f = repo.func(f'radiometry.{WAVE_CLASSES[a]}.to')
-        chk.ob('C14-a', 'T-identity', f.key, f'{a} -> {a}', fac[(a, a)] == 1,
-               f'factor {fac[(a, a)]}, expected 1', f.loc())
-        chk.ob('C14-a', 'T-anchor', 'radiometry.Meter.to', f'm -> {a} (SI)', fac[('m', a)] == SI[a],
-               f'factor {fac[("m", a)]}, SI prefix gives {SI[a]}', repo.func('radiometry.Meter.to').loc())
-    for a, b, c in itertools.product(units, repeat=3):
-        f = repo.func(f'radiometry.{WAVE_CLASSES[a]}.to')
-        ok = fac[(a, b)] * fac[(b, c)] == fac[(a, c)]
-        chk.ob('C14-a', 'T-closure', 'radiometry wavelength units', f'{a}->{b}->{c}', ok,
-               f'{fac[(a, b)]} * {fac[(b, c)]} = {fac[(a, b)] * fac[(b, c)]} but {a}->{c} is {fac[(a, c)]}', f.loc())
-    for a in units:
-        for b, names in WAVE_ALIASES.items():
-            for alias in names[1:]:
-                v, f = wave_factor(repo, a, alias)
-                chk.ob('C14-a', 'T-alias', f.key, f'{a} -> alias {alias!r}', v == fac[(a, b)],
-                       f'alias gives {v}, canonical {b!r} gives {fac[(a, b)]}', f.loc())
-    fu = repo.func('radiometry.Unit')
-    for b, names in list(WAVE_ALIASES.items()) + [(k, [k]) for k in FLUX_CLASSES]:
-        for alias in names:
-            _, paths, _ = analyse(repo, fu, config={'name': Const(alias)})
-            p = single(paths, f'Unit({alias!r})')
-            ev = [e for e in p.events if e.kind == 'call' and e.data.get('new')]
-            cls = ev[-1].data['new'].split('.')[-1] if ev else None
-            want = WAVE_CLASSES.get(b) or FLUX_CLASSES.get(b)
-            cname = None
-            if cls and cls in repo.modules['radiometry'].classes:
-                nm = repo.modules['radiometry'].classes[cls].class_attrs.get('name')
-                cname = nm.value if isinstance(nm, ast.Constant) else None
-            chk.ob('C14-a', 'T-alias', 'radiometry.Unit', f'Unit({alias!r})', cls == want and cname == b,
-                   f'constructs {cls} (name {cname!r}); expected {want} (name {b!r})', fu.loc())
+    import sys as _sys0
+    _run_nested(_sys0.modules[__name__], chk, repo, tier, 'wave_unit_rules')
+    units = list(WAVE_CLASSES)
 
     # ---------------------------------------------------------------- C14-b
     fl = list(FLUX_CLASSES)
@@ -136,6 +100,32 @@ def run(chk, repo, tier):
     _run_nested(_sys.modules[__name__], chk, repo, tier, 'to_rules')
     unit_label_order_rule(chk, repo, 'C14-c')
     rescaled_copy_rule(chk, repo, 'C14-c')
+    # a product of two spectra is labelled with the units of its LEFT operand: along an optical path the emission collected so
+    # far (a flux density) stays on the left of the transmission that attenuates it (unitless), or the total loses its flux unit
+    import ast as _ast
+    swapped, n_mul = [], 0
+    for key_ in ('radiometry.path_emission',):
+        if not repo.has_func(key_):
+            continue
+        g_ = repo.func(key_)
+        accs = set(g_.param_names())
+        for loop in [x for x in _ast.walk(g_.node) if isinstance(x, _ast.For)]:
+            item = loop.target.id if isinstance(loop.target, _ast.Name) else None
+            for node in _ast.walk(loop):
+                if isinstance(node, _ast.BinOp) and isinstance(node.op, _ast.Mult):
+                    def kind(e):
+                        if isinstance(e, _ast.Name) and e.id in accs:
+                            return 'acc'
+                        if isinstance(e, _ast.Attribute) and isinstance(e.value, _ast.Name) and e.value.id == item and 'transmi' in e.attr:
+                            return 'trans'
+                        return None
+                    kl, kr = kind(node.left), kind(node.right)
+                    if {kl, kr} == {'acc', 'trans'}:
+                        n_mul += 1
+                        if kl == 'trans':
+                            swapped.append(f'`{g_.module.segment(node)[:50]}` at {g_.loc(node)}')
+    chk.ob('C14-c', 'D-flow', 'radiometry.path_emission', 'the collected emission is the left operand of its attenuation (the product keeps its flux unit)',
+           (not swapped) if n_mul else None, '; '.join(swapped) + (': the result takes the units of the transmission' if swapped else ''), '')
     # the Vega zero point a magnitude-scaled blackbody is sampled with is looked up for the wavelength unit of *this* request
     # (a value kept from construction is in the construction's unit)
     if repo.has_func('radiometry.Blackbody.sample_vegamag'):
@@ -160,7 +150,7 @@ def run(chk, repo, tier):
     # two spectra in different units are brought to one unit by the same conversions: which operand is converted, in which
     # unit the common grid is, and which unit the result is labelled with (the rules of spectrum arithmetic about units)
     from . import c13 as _c13
-    _run_nested(_c13, _Remap(chk, {'C13-f': 'C14-c', 'C13-c': 'C14-c', 'C13-d': 'C14-g'}), repo, tier)
+    _run_nested(_c13, _Remap(chk, {'C13-f': 'C14-c', 'C13-c': 'C14-c', 'C13-d': 'C14-g', 'C13-e': 'C14-c'}), repo, tier)
     fto_ = repo.func('radiometry.Spectrum.to')
     early = []
     for loop in [n for n in ast.walk(fto_.node) if isinstance(n, ast.For)]:
@@ -257,6 +247,50 @@ def run(chk, repo, tier):
                     chk.ob('C14-g', 'B5-default', key, f'call of {s.callee.key} at line {s.node.lineno} passes {unit}', explicit,
                            '' if explicit else f'relies on the default {unit}={dflt[unit].value!r} of {s.callee.key} although '
                                                f'{key} works in the `{unit}` it was given', s.loc())
+
+
+def wave_unit_rules(chk, repo, tier):
+    """The wavelength-unit factors: identity, SI anchors, closure over all triples, aliases (C14-a; also what mixed-unit
+    spectrum arithmetic relies on when it brings the second operand to the unit of the first)."""
+    units = list(WAVE_CLASSES)
+    fac = {}
+    for a in units:
+        for b in units:
+            v, f = wave_factor(repo, a, b)
+            fac[(a, b)] = v
+            if v is None:
+                raise AnalysisError(f'{f.key}({b!r}) does not fold to a constant')
+    for a in units:
+        f = repo.func(f'radiometry.{WAVE_CLASSES[a]}.to')
+        chk.ob('C14-a', 'T-identity', f.key, f'{a} -> {a}', fac[(a, a)] == 1,
+               f'factor {fac[(a, a)]}, expected 1', f.loc())
+        chk.ob('C14-a', 'T-anchor', 'radiometry.Meter.to', f'm -> {a} (SI)', fac[('m', a)] == SI[a],
+               f'factor {fac[("m", a)]}, SI prefix gives {SI[a]}', repo.func('radiometry.Meter.to').loc())
+    for a, b, c in itertools.product(units, repeat=3):
+        f = repo.func(f'radiometry.{WAVE_CLASSES[a]}.to')
+        ok = fac[(a, b)] * fac[(b, c)] == fac[(a, c)]
+        chk.ob('C14-a', 'T-closure', 'radiometry wavelength units', f'{a}->{b}->{c}', ok,
+               f'{fac[(a, b)]} * {fac[(b, c)]} = {fac[(a, b)] * fac[(b, c)]} but {a}->{c} is {fac[(a, c)]}', f.loc())
+    for a in units:
+        for b, names in WAVE_ALIASES.items():
+            for alias in names[1:]:
+                v, f = wave_factor(repo, a, alias)
+                chk.ob('C14-a', 'T-alias', f.key, f'{a} -> alias {alias!r}', v == fac[(a, b)],
+                       f'alias gives {v}, canonical {b!r} gives {fac[(a, b)]}', f.loc())
+    fu = repo.func('radiometry.Unit')
+    for b, names in list(WAVE_ALIASES.items()) + [(k, [k]) for k in FLUX_CLASSES]:
+        for alias in names:
+            _, paths, _ = analyse(repo, fu, config={'name': Const(alias)})
+            p = single(paths, f'Unit({alias!r})')
+            ev = [e for e in p.events if e.kind == 'call' and e.data.get('new')]
+            cls = ev[-1].data['new'].split('.')[-1] if ev else None
+            want = WAVE_CLASSES.get(b) or FLUX_CLASSES.get(b)
+            cname = None
+            if cls and cls in repo.modules['radiometry'].classes:
+                nm = repo.modules['radiometry'].classes[cls].class_attrs.get('name')
+                cname = nm.value if isinstance(nm, ast.Constant) else None
+            chk.ob('C14-a', 'T-alias', 'radiometry.Unit', f'Unit({alias!r})', cls == want and cname == b,
+                   f'constructs {cls} (name {cname!r}); expected {want} (name {b!r})', fu.loc())
 
 
 def to_rules(chk, repo, tier):
